@@ -61,6 +61,25 @@ func refSelfTest() []string {
 			[]want{{"a", 93, 0, 100, 10}}},
 		{`<body id=body><div id=a style="width:200px;margin-left:7px;margin-right:auto">a</div></body>`,
 			[]want{{"a", 7, 0, 200, 10}}},
+		// §10.3.3 pre-test: "border + padding + width plus any of margin-left or margin-right
+		// that are not auto" larger than the containing block: the auto margin is zero, the
+		// equation is over-constrained and (ltr) margin-right gives way; each specified margin
+		// counts on its own, and a sum that just fits leaves the auto margin to the equation
+		{`<body id=body><div id=a style="width:80px;margin-left:auto;margin-right:150px">a</div></body>`,
+			[]want{{"a", 0, 0, 80, 10}}},
+		{`<body id=body><div id=a style="width:50px;margin-left:auto;margin-right:150px;padding-right:5px">a</div></body>`,
+			[]want{{"a", 0, 0, 55, 10}}},
+		{`<body id=body><div id=a style="width:50px;margin-left:auto;margin-right:150px">a</div></body>`,
+			[]want{{"a", 0, 0, 50, 10}}},
+		{`<body id=body><div id=a style="width:40px;margin-left:auto;margin-right:150px">a</div></body>`,
+			[]want{{"a", 10, 0, 40, 10}}},
+		{`<body id=body><div id=a style="width:80px;margin-left:150px;margin-right:auto">a</div></body>`,
+			[]want{{"a", 150, 0, 80, 10}}},
+		{`<body id=body><div id=a style="width:80px;margin-left:150px;margin-right:150px">a</div></body>`,
+			[]want{{"a", 150, 0, 80, 10}}},
+		// auto width that would be negative: min-width (initially 0) re-runs the rules with width 0
+		{`<body id=body><div id=a style="margin-left:150px;margin-right:150px"></div></body>`,
+			[]want{{"a", 150, nan, 0, 0}}},
 		// §10.4: max-width then min-width, each re-running §10.3.3 (auto margins centre again)
 		{`<body id=body><div id=a style="max-width:80px;margin-left:auto;margin-right:auto">a</div></body>`,
 			[]want{{"a", 60, 0, 80, 10}}},
